@@ -179,7 +179,9 @@ def run_tlc(files, module, cfg, workers=1, timeout=900, simulate=None, depth=Non
                 os.link(path, dst)
             except OSError:
                 shutil.copy(path, dst)
-    cmd = ["java", "-XX:+UseParallelGC", "-Xss64m"]
+    jtmp = os.path.join(d, "jtmp")   # TLC unpacks its standard modules into java.io.tmpdir and leaves them there
+    os.makedirs(jtmp, exist_ok=True)
+    cmd = ["java", "-XX:+UseParallelGC", "-Xss64m", "-Djava.io.tmpdir=" + jtmp]
     if java_opts:
         cmd += java_opts
     cmd += ["-cp", "/opt/veriftools/tla/tla2tools.jar:/opt/veriftools/tla/CommunityModules-deps.jar", "tlc2.TLC",
